@@ -21,6 +21,8 @@ PROGRAMS = [
     "def g(x_value, y_value):\n    z_value='some text here';w_value='some text here'\n    return x_value+y_value, z_value, w_value, 'some text here'\nprint(g(1,2))",
     "import os, sys\nfrom collections import OrderedDict, defaultdict\nalpha=1;beta=2;gamma=3;delta=4\nprint(alpha+beta,gamma+delta,alpha,beta,gamma,delta,OrderedDict,defaultdict,os,sys)",
     "class K:\n    one=1;two=2\n    def m(self, p, q):\n        r=p+q;s=p*q\n        return r,s,r,s\nprint(K().m(1,2))",
+    "SECONDS=60.0*60\nSTEPS=16*256\nFLAG=True+1\nprint(SECONDS,STEPS,FLAG)",
+    "SECONDS_PER_HOUR=60*60\nSTEPS=16.0*256\nCOUNT=1+1\nprint(SECONDS_PER_HOUR,STEPS,COUNT)",
     "def h():\n    x=1\n    def i():\n        nonlocal x\n        x+=1\n        return x\n    return i(),x\nprint(h(),None,None,None,True,True,True)",
 ]
 OPTION_SETS = [{}, {'rename_globals': True}, {'rename_globals': True, 'preserve_globals': ['alpha', 'Exported']}, {'preserve_locals': ['x_value']},
